@@ -17,6 +17,8 @@ ORACLES = {
     'UserStatusFn': {'returns': 'int', 'raises': ()},
     # a mock records the call and returns something (ignored by the mocker)
     'UserMock': {'returns': 'any', 'raises': ()},
+    # a patch callback of the pytest mocker: computes the result value (a JSON-encodable value) or raises
+    'UserMockCallback': {'returns': 'encodable', 'raises': ('Exception',)},
     # a response object is a WSGI application: calling it sends it
     'ExtHttpResponse': {'returns': 'any', 'raises': ()},
     'UserJitter': {'returns': 'number', 'raises': ()},
@@ -52,7 +54,7 @@ FIELD_TYPES = {
     ('pjrpc.client.integrations.pytest:PjRpcMocker', '_calls'): 'ddict[dict[=UserMock]]',
     ('pjrpc.client.integrations.pytest:PjRpcMocker', '_mocker'): '=UserMockModule',
     ('pjrpc.client.integrations.pytest:Match', 'once'): 'bool',
-    ('pjrpc.client.integrations.pytest:Match', 'callback'): 'opt:=UserCallback',
+    ('pjrpc.client.integrations.pytest:Match', 'callback'): 'opt:=UserMockCallback',
     ('pjrpc.client.integrations.pytest:Match', 'response_data'): '=dict',
     ('builtins:ExtHttpRequest', 'mimetype'): 'str',
     ('builtins:ExtHttpRequest', 'content_type'): 'opt:str',
